@@ -184,6 +184,9 @@ def parseCfg (toks : List String) : Option Cfg :=
     | "wr" => if v ∈ ["all", "one", "pend", "pendone"] then some c else none
     | "werr" => (pNat v).map fun n => { c with wlimit := minOpt c.wlimit (some n) }
     | "wzero" => (pNat v).map fun n => { c with wlimit := minOpt c.wlimit (some n) }
+    -- what the transport answers to `poll_flush` / `poll_close`: the client calls neither, so nothing depends on it
+    | "wflush" => if v ∈ ["ok", "err", "pend"] then some c else none
+    | "wclose" => if v ∈ ["ok", "err", "pend"] then some c else none
     | _ => none
 
 /-! ## rendering -/
